@@ -52,6 +52,22 @@ CHECKS = {
          "Generated callback lists over a shared vocabulary against scripted dialogues; a reference trigger model written from the property statement is stepped on exactly the chunk sequence the transport delivered and predicts the (callback, argument) sequence, result and error class.",
          "Callback lists exclude shapes whose outcome depends on poll timing the property does not define (see assumptions in evidence).",
          "deterministic simulation + executable reference trigger model over the delivered chunk history", "5/C18"),
+ "C02": ("exploration",
+         "Generated reply payloads in 1.0 framing or random legal RFC 6242 chunkings, cut into reads and interleaved arbitrarily, compared with expectations by construction; a fault sub-batch frames replies with named framing faults; per run dozens of raw frames (well-formed, faulty, truncated, unterminated, literals) go straight to the public decoder under recover(). Listed malformed classes must be marked failed; never a panic; results never contain bytes that were not sent.",
+         "Trusts the server model's framer; one known finding ('##' inside a payload vs. the read loop's regexp delimiter) is listed in known-findings.json; the raw-frame leg has no schedule dimension.",
+         "deterministic simulation of NETCONF sessions + malformed-frame fault injection + direct decoder calls; oracle by construction", "5/C02"),
+ "C03": ("exploration",
+         "Generated operations with generated arguments over the version x self-closing x header grid; the server's receive log is split by a strict RFC 6242/4742 decoder, each message must equal Response.Input, be well-formed, and token-equal (byte-equal without self-closing) to the request built by construction from RFC 6241's layout.",
+         "Trusts the strict decoder, encoding/xml's tokenizer and the construction of expected requests; framing is a pure function, simulation supplies version negotiation, session position and wire concatenation.",
+         "deterministic simulation + strict independent decoder + expected requests by construction", "5/C03"),
+ "C08": ("exploration",
+         "Sessions of 2..12 RPCs with per-request server behaviour now/late/never, echoing or not, both framings, reads never spanning two server messages; the history is checked for distinct increasing ids, each call getting exactly the reply generated for it (or an error), and no reply delivered in time being lost.",
+         "Late replies are scheduled far from the caller's deadline; trusts the server model.",
+         "deterministic simulation of the NETCONF reader/poller/caller interleaving with late/never-reply faults; history oracle", "5/C08"),
+ "C09": ("exploration",
+         "The 12 advertised x preferred cells are enumerated per batch; hellos are generated (extra capabilities incl. look-alikes, prefixes, layouts, session-ids, text before the hello, no hello); decision table, server-side record of the client hello, reported capabilities/session-id and strict decoding of the first RPC are checked under arbitrary segmentation and echo.",
+         "Cells exhaustive, everything else sampled; generator restrictions in DESIGN.md 5/C09 (H).",
+         "deterministic simulation of NETCONF session establishment; decision-table oracle + strict decoder", "5/C09"),
 }
 
 NOT_YET = {}  # id -> reason (filled while the framework is being built)
